@@ -69,6 +69,9 @@ def families(C):
     yield 'GreedyString(utf8)', C.GreedyString('utf8'), ['', 'a', 'Афон'], True
     yield 'Enum(Byte, a=1, b=2)', C.Enum(C.Byte, a=1, b=2), ['a', 'b', 7], False
     yield 'FlagsEnum(Byte, a=1, b=2, c=128)', C.FlagsEnum(C.Byte, a=1, b=2, c=128), [C.Container(a=x, b=y, c=z) for x in (False, True) for y in (False, True) for z in (False, True)], False
+    # labels whose masks overlap (a multi-bit label beside its single bits): only the values a parse can return are round-trip values
+    yield 'FlagsEnum(Byte, r=1, w=2, rw=3)', C.FlagsEnum(C.Byte, r=1, w=2, rw=3), [C.Container(r=x, w=y, rw=(x and y)) for x in (False, True) for y in (False, True)], False
+    yield 'FlagsEnum(Int16ub, lo=0x00ff, bit=0x0001, hi=0xff00)', C.FlagsEnum(C.Int16ub, lo=0x00ff, bit=0x0001, hi=0xff00), [C.Container(lo=False, bit=True, hi=False), C.Container(lo=True, bit=True, hi=False), C.Container(lo=False, bit=False, hi=True)], False
     yield 'Mapping(Byte, {x:1,y:2})', C.Mapping(C.Byte, {'x': 1, 'y': 2}), ['x', 'y'], False
     st = C.Struct('a' / C.Byte, 'b' / C.Int16ul, 'c' / C.Struct('n' / C.Byte, 'd' / C.Bytes(C.this.n), 'e' / C.Bytes(C.this._.a)))
     yield 'Struct(nested, lengths from siblings and parent)', st, [C.Container(a=x, b=513, c=C.Container(n=n, d=b'q' * n, e=b'r' * x)) for x in (0, 2) for n in (0, 1, 3)], False
